@@ -520,7 +520,13 @@ func genCase(t *rapid.T) Case {
 	}
 	flags := sgen.Flags(t, pool)
 	var p sgen.Program
-	switch rapid.IntRange(0, 9).Draw(t, "level") {
+	var lc *sgen.LockCtx
+	switch rapid.IntRange(0, 11).Draw(t, "level") {
+	case 10:
+		p = sgen.P2SHLookalike(t, flags)
+	case 11:
+		lp, c := sgen.LockTimeProgram(t, flags)
+		p, lc = lp, &c
 	case 0:
 		p = sgen.RandomOps(t, flags, excl)
 	case 1, 2, 3:
@@ -535,6 +541,9 @@ func genCase(t *rapid.T) Case {
 		p.Level += "+p2sh"
 	}
 	ctxv := libexec.TxCtx{Version: 2, LockTime: 100, Seq: 50, Amount: uint64(rapid.IntRange(0, 1).Draw(t, "amount"))}
+	if lc != nil {
+		ctxv.Version, ctxv.LockTime, ctxv.Seq = lc.Version, lc.LockTime, lc.Seq
+	}
 	return Case{Prog: libexec.Prog{Unlock: p.Unlock, Lock: p.Lock, Flags: uint32(p.Flags), Ctx: ctxv, Level: p.Level}, Ref: !withSig}
 }
 
